@@ -759,7 +759,6 @@ pub fn peer_replay(args: &Args) {
         t.ev(json!({"ev":"reset","run":k,"world":"tcp_peer","src":"tlc","cfg":[{"rx":65535,"tx":65535,"mtu":cfg.mtu,"cc":0,"ad":-1,"nagle":false,"ts":false,"isn":peer_iss_base as i64,"scripted":true},
             {"rx":cfg.rx,"tx":cfg.tx,"mtu":cfg.mtu,"cc":cfg.cc,"ad":-1,"nagle":cfg.nagle,"ts":false,"isn":want}], "peer_fin": sc.get("peer_fin").cloned().unwrap_or(json!(-1))}));
         w.api_listen(&mut t);
-        let mut rto_fires = 0;
         for st in sc["steps"].as_array().unwrap() {
             let kind = st["k"].as_str().unwrap();
             let ok = match kind {
@@ -776,18 +775,17 @@ pub fn peer_replay(args: &Args) {
                     }
                     w.inject(f, &mut t, json!({"after": st["after"], "mbefore": st["before"]}))
                 }
-                "poll" => {
-                    if st["fire"].as_bool().unwrap() {
-                        // jump to the socket's own deadline (that is what "the armed timer fires" means)
-                        let pa = w.ep.poll_at(w.now);
-                        if pa > w.now {
-                            w.now = pa;
-                        }
-                        rto_fires += 1;
-                    } else {
-                        w.now += 1;
+                "due" => {
+                    // the armed timer reaches its deadline: jump to the instant the socket itself reports
+                    let pa = w.ep.poll_at(w.now);
+                    if pa > w.now {
+                        w.now = pa;
                     }
-                    w.timer_poll(&mut t, json!({"after": st["after"], "fire": st["fire"]}))
+                    t.ev(json!({"ev":"clock","ep":1,"now":w.now,"pa":pa}));
+                    true
+                }
+                "poll" => {
+                    w.timer_poll(&mut t, json!({"after": st["after"]}))
                 }
                 "recv" => {
                     w.now += 1;
@@ -815,7 +813,6 @@ pub fn peer_replay(args: &Args) {
                 break;
             }
         }
-        let _ = rto_fires;
     }
     println!("{}", json!({"runs": sched.len(), "events": t.finish()}));
 }
